@@ -5,7 +5,7 @@ instruction as decoding the suffix, records the offset, leaves the stream at off
 opcodes / invalid forms) and seeded random bytes; outcome classes absent | instr(len, renders in both syntaxes) |
 internal(exception type, site) | timeout; judged by spec/T_C10.tla over spec/Stream.tla and the reference decoder.
 Assembler half: vf/c10_asm.py (run_asm_part), called from run() when present."""
-import sys, json, random, signal, collections, multiprocessing, importlib
+import os, sys, json, random, signal, collections, multiprocessing, importlib
 from . import core, ia32lib, ia32space
 
 FILL = bytes([0x11, 0x22, 0x33, 0x44, 0x55, 0x77, 0x88, 0x99])
@@ -174,8 +174,8 @@ def run(tier, chk):
 
 
 def negative_control(chk):
-    obs = observe([bytes.fromhex('8b4c2410'), bytes.fromhex('e811223344')])
-    recs = [to_record(i, r) for i, r in enumerate(obs)]
+    # frozen control records (recorded once on the unchanged tree): independent of the tree under test
+    recs = json.load(open(os.path.join(core.VERIF, 'vf', 'ia32_controls.json')))['C10']
     bad = []
     def mut(i, f, clause):
         r = json.loads(json.dumps(recs[i]))
@@ -200,6 +200,10 @@ def negative_control(chk):
 
 def replay(path, chk):
     rp = json.load(open(path))
+    if str(rp.get('class', {}).get('clause', '')).startswith('C10.asm'):
+        asm = importlib.import_module('vf.c10_asm')
+        asm.replay_asm(rp['detail'], chk)
+        return chk.finish()
     b = bytes.fromhex(rp['detail']['bytes'])
     obs = observe([b])
     recs = [to_record(0, obs[0])]
